@@ -39,7 +39,7 @@ func c02Strings(tier string) []strClass {
 		{"html", "<a&b>"}, {"data-prefix", "data: x\nid: 7"}, {"invalid-utf8", "a\xffb"},
 		// values that coincide with words of the protocol's own envelope (a decoder that looks for them as substrings goes wrong)
 		{"percent", "100% %d %s %v %!(x) %%"}, // a frame passed to a printf-style writer as the format
-		{"1MiB+1", rep(1<<20 + 1)},             // beyond any 1 MiB line/token limit
+		{"1MiB+1", rep(1<<20 + 1)},            // beyond any 1 MiB line/token limit
 		{"kw-error", "error"}, {"kw-result", "result"}, {"kw-jsonrpc", "jsonrpc"}, {"kw-method", "method"}, {"kw-id", "id"}, {"kw-null", "null"},
 		{"json-error-object", `{"jsonrpc":"2.0","id":1,"error":{"code":-32603,"message":"x"}}`}, {"json-result-object", `{"jsonrpc":"2.0","id":1,"result":{}}`},
 		{"4095", rep(4095)}, {"4096", rep(4096)}, {"4097", rep(4097)}, {"65535", rep(65535)}, {"65536", rep(65536)}, {"65537", rep(65537)},
